@@ -190,6 +190,28 @@ def run_case(ctx, case, rng):
     ctx.key = common.model_key(spec, [small.recipe, thr])
     return {}
   n_data = compare(ctx, small.out, large.out, base)
+  if case % 5 == 2:
+    # the float model itself may ARRIVE in external-buffer form (that is how > 2 GB float models are stored): both paths must
+    # produce what they produce for the in-place form of the same model
+    import dataclasses
+    ext = models.externalize(spec.content)
+    if ext != spec.content:
+      ctx.count('external_buffer_input_models')
+      spec_x = dataclasses.replace(spec, content=ext)
+      for label, want, env in (('ordinary', small.out, None), ('large', large.out if not reuse else None, str(thr))):
+        if want is None:
+          continue
+        os.environ.pop(THR, None)
+        if env is not None:
+          os.environ[THR] = env
+        try:
+          rx = common.pipeline(spec_x, datasets, rules=rules, cal=small.cal if small.need_cal else None)
+        finally:
+          os.environ.pop(THR, None)
+        if rx.exc is not None:
+          ctx.violation('external_buffer_input_raised', {'path': label, 'exc': common.exc_signature(rx.exc)[:80]}, base)
+        elif rx.out != want:
+          ctx.violation('external_buffer_input_gives_other_bytes', {'path': label}, dict(base, n_inplace=len(want), n_external=len(rx.out)))
   ctx.key = common.model_key(spec, [small.recipe, thr])
   ctx.nontrivial = n_data > 0
   ctx.sample = dict(base, buffers_with_data=n_data, small_bytes=len(small.out), large_bytes=len(large.out))
